@@ -47,7 +47,11 @@ func SortVersions(vs []Version) {
 			// Does this make any sense at all?
 			return vs[i].Version < vs[j].Version
 		}
-		return vi.Compare(vj) < 0
+		if c := vi.Compare(vj); c != 0 {
+			return c < 0
+		}
+		// Distinct spellings of the same version: keep the order deterministic.
+		return vs[i].Version < vs[j].Version
 	})
 }
 
@@ -209,5 +213,6 @@ func matchRequirement(req VersionKey, versions []Version) []Version {
 		// TODO: use the attributes properly
 		matches = append(matches, v2)
 	}
+	SortVersions(matches)
 	return matches
 }
